@@ -14,7 +14,7 @@ repo.activate()
 
 from happysimulator.components.datastore.kv_store import KVStore  # noqa: E402
 from happysimulator.components.datastore.replicated_store import ConsistencyLevel, ReplicatedStore  # noqa: E402
-from happysimulator.components.replication.chain_replication import ChainNode, build_chain  # noqa: E402
+from happysimulator.components.replication.chain_replication import build_chain  # noqa: E402
 from happysimulator.components.replication.conflict_resolver import (  # noqa: E402
     CustomResolver,
     LastWriterWins,
